@@ -4,6 +4,7 @@ import (
 	"bytes"
 	"encoding/xml"
 	"fmt"
+	"hash/fnv"
 	"reflect"
 	"sort"
 	"strings"
@@ -47,6 +48,19 @@ type typeDesc struct {
 	lossyTokens bool
 	// trigger: a minimal trigger class of the value, appended to finding keys ("" = none)
 	trigger func(v interface{}, field string) string
+	// keeps: fields of the projection that UnmarshalXML leaves alone (or, for slices, appends
+	// to) when the document does not mention them — Go's convention for decoding into a
+	// non-zero value, kept where the code keeps it. Every other field must not depend on what
+	// the destination held before. "*" = the whole (non-struct) value may be kept.
+	keeps []string
+	// intoChecker / intoOld: the model's decode-into-a-destination function for this type (Coq
+	// checker name) and the Coq term of the destination before the call
+	intoChecker string
+	intoOld     func(dst interface{}) string
+	// dirty: a destination that already holds a value (default: built from gen by reflection)
+	dirty func(r *hx.Rand) interface{}
+	// dirtyCheck overrides the field-wise comparison (old, fresh and dirty results as projections)
+	dirtyCheck func(old, fresh, got interface{}) string
 	// direct: a clause of the property stated directly on the tokens TokenReader yields for v
 	// (independent of decoding and of the model); returns (clause, what) or ("", "")
 	direct func(v interface{}, raw []*Tree) (string, string)
@@ -401,6 +415,9 @@ func (x *runner) oneDoc(td *typeDesc, doc []byte, note string) {
 	if p != "" {
 		x.fail(td, "unmarshal/panic", "unmarshalling a document panics: "+p, c)
 	}
+	if perr == nil && p == "" {
+		x.dirtyDecode(td, doc, err, ptr, c)
+	}
 	if perr != nil || td.codec == "" {
 		return
 	}
@@ -471,4 +488,229 @@ func (x *runner) reflectOnly(td *typeDesc, v interface{}, c caseRec, eq func(int
 			x.fail(td, "roundtrip/"+f, fmt.Sprintf("decoded value differs from the original: want %+v got %+v", want, g), c)
 		}
 	}
+}
+
+// ---- decoding into a destination that already holds a value ----
+
+func deepCopy(v reflect.Value) reflect.Value {
+	switch v.Kind() {
+	case reflect.Ptr:
+		if v.IsNil() {
+			return v
+		}
+		n := reflect.New(v.Type().Elem())
+		n.Elem().Set(deepCopy(v.Elem()))
+		return n
+	case reflect.Slice:
+		if v.IsNil() {
+			return v
+		}
+		n := reflect.MakeSlice(v.Type(), v.Len(), v.Len())
+		for i := 0; i < v.Len(); i++ {
+			n.Index(i).Set(deepCopy(v.Index(i)))
+		}
+		return n
+	case reflect.Struct:
+		n := reflect.New(v.Type()).Elem()
+		for i := 0; i < v.NumField(); i++ {
+			if n.Field(i).CanSet() {
+				n.Field(i).Set(deepCopy(v.Field(i)))
+			}
+		}
+		return n
+	case reflect.Interface:
+		if v.IsNil() {
+			return v
+		}
+		n := reflect.New(v.Type()).Elem()
+		n.Set(deepCopy(v.Elem()))
+		return n
+	}
+	return v
+}
+
+func snapshot(p interface{}) interface{} {
+	if p == nil {
+		return nil
+	}
+	return deepCopy(reflect.ValueOf(p)).Interface()
+}
+
+// dirtyDest: a pointer to a value of the type, the largest of three generated ones.
+func dirtyDest(td *typeDesc, r *hx.Rand) interface{} {
+	if td.dirty != nil {
+		return td.dirty(r)
+	}
+	if td.gen == nil || td.fresh == nil {
+		return nil
+	}
+	ft := reflect.TypeOf(td.fresh())
+	var best interface{}
+	bestLen := -1
+	for i := 0; i < 3; i++ {
+		var v interface{}
+		if p := hx.Catch(func() { v = td.gen(r) }); p != "" || v == nil {
+			continue
+		}
+		if td.valid != nil && !td.valid(v) {
+			continue
+		}
+		rv := reflect.ValueOf(v)
+		var ptr interface{}
+		switch {
+		case rv.Type() == ft:
+			ptr = v
+		case rv.Type() == ft.Elem():
+			n := reflect.New(ft.Elem())
+			n.Elem().Set(rv)
+			ptr = n.Interface()
+		default:
+			continue
+		}
+		if l := len(fmt.Sprintf("%+v", td.proj(ptr))); l > bestLen {
+			best, bestLen = ptr, l
+		}
+	}
+	return best
+}
+
+// sliceAppend: got = old ++ fresh, for slice-valued fields
+func sliceAppend(old, fresh, got reflect.Value) bool {
+	if old.Kind() != reflect.Slice || fresh.Kind() != reflect.Slice || got.Kind() != reflect.Slice {
+		return false
+	}
+	if got.Len() != old.Len()+fresh.Len() {
+		return false
+	}
+	for i := 0; i < old.Len(); i++ {
+		if !reflect.DeepEqual(got.Index(i).Interface(), old.Index(i).Interface()) {
+			return false
+		}
+	}
+	for i := 0; i < fresh.Len(); i++ {
+		if !reflect.DeepEqual(got.Index(old.Len()+i).Interface(), fresh.Index(i).Interface()) {
+			return false
+		}
+	}
+	return true
+}
+
+// mixOK: a kept field holds the new value, the old value, the old slice followed by the new
+// one, or (structs, pointers) a field-wise mixture of those — never anything else.
+func mixOK(o, f, g reflect.Value) bool {
+	if sameVal(g, f) || sameVal(g, o) || sliceAppend(o, f, g) {
+		return true
+	}
+	if o.Kind() != g.Kind() || f.Kind() != g.Kind() {
+		return false
+	}
+	switch g.Kind() {
+	case reflect.Struct:
+		for i := 0; i < g.NumField(); i++ {
+			if !mixOK(o.Field(i), f.Field(i), g.Field(i)) {
+				return false
+			}
+		}
+		return true
+	case reflect.Ptr:
+		if o.IsNil() || f.IsNil() || g.IsNil() {
+			return false
+		}
+		return mixOK(o.Elem(), f.Elem(), g.Elem())
+	}
+	return false
+}
+
+func emptyish(v reflect.Value) bool {
+	switch v.Kind() {
+	case reflect.Slice, reflect.String:
+		return v.Len() == 0
+	}
+	return false
+}
+
+func sameVal(a, b reflect.Value) bool {
+	if emptyish(a) && emptyish(b) {
+		return true
+	}
+	return reflect.DeepEqual(a.Interface(), b.Interface())
+}
+
+// dirtyDecode: the document decoded into a fresh value (already done by the caller: ferr,
+// fptr) and into a destination that already holds another value must agree, except for the
+// fields the type keeps by Go's convention; no field may be anything else than the new value,
+// the old value, or (slices) the old value followed by the new one.
+func (x *runner) dirtyDecode(td *typeDesc, doc []byte, ferr error, fptr interface{}, c caseRec) {
+	h := fnv.New64a()
+	h.Write([]byte(td.name))
+	h.Write(doc)
+	dst := dirtyDest(td, hx.NewRand(h.Sum64()))
+	if dst == nil {
+		return
+	}
+	eq := td.eq
+	if eq == nil {
+		eq = td.proj
+	}
+	old := snapshot(eq(dst))
+	c.Note += fmt.Sprintf(" dirty-destination=%+v", old)
+	if len(c.Note) > 700 {
+		c.Note = c.Note[:700] + "..."
+	}
+	oldCoq := ""
+	if td.intoOld != nil {
+		oldCoq = td.intoOld(dst)
+	}
+	var derr error
+	if p := hx.Catch(func() { derr = xml.Unmarshal(doc, dst) }); p != "" {
+		x.fail(td, "unmarshal/panic:dirty-destination", "unmarshalling into a destination that holds a value panics: "+p, c)
+		return
+	}
+	x.res.Count(td.name+c.Doc+"dirty", true, "type/"+td.name, "doc/dirty-destination")
+	if td.intoChecker != "" {
+		if tree, perr := parseDoc(doc); perr == nil {
+			o := newOr()
+			o.fromTree(tree, td.needs)
+			obs := "Err"
+			if derr == nil {
+				obs = "(Ok " + coqOf(td.proj(dst)) + ")"
+			}
+			x.cases.Add(fmt.Sprintf("%s %s %s %s %s", td.intoChecker, o.Coq(), oldCoq, tree.Coq(), obs), c)
+		}
+	}
+	if (ferr == nil) != (derr == nil) {
+		x.fail(td, "unmarshal/depends-on-destination/error", fmt.Sprintf("fresh destination: %v; destination holding a value: %v", ferr, derr), c)
+		return
+	}
+	if ferr != nil {
+		return
+	}
+	fresh, got := eq(fptr), eq(dst)
+	if td.dirtyCheck != nil {
+		if f := td.dirtyCheck(old, fresh, got); f != "" {
+			x.fail(td, "unmarshal/depends-on-destination/"+f, fmt.Sprintf("old %+v, into fresh %+v, into old %+v", old, fresh, got), c)
+		}
+		return
+	}
+	keeps := map[string]bool{}
+	for _, k := range td.keeps {
+		keeps[k] = true
+	}
+	vo, vf, vg := reflect.ValueOf(old), reflect.ValueOf(fresh), reflect.ValueOf(got)
+	check := func(name string, o, f, g reflect.Value) {
+		if sameVal(g, f) {
+			return
+		}
+		if (keeps[name] || keeps["ALL"]) && mixOK(o, f, g) {
+			return
+		}
+		x.fail(td, "unmarshal/depends-on-destination/"+name, fmt.Sprintf("field %s: old %+v, decoded into a fresh value %+v, decoded into the old value %+v", name, o.Interface(), f.Interface(), g.Interface()), c)
+	}
+	if vf.Kind() == reflect.Struct && vg.Kind() == reflect.Struct && vo.Kind() == reflect.Struct {
+		for i := 0; i < vf.NumField(); i++ {
+			check(vf.Type().Field(i).Name, vo.Field(i), vf.Field(i), vg.Field(i))
+		}
+		return
+	}
+	check("*", vo, vf, vg)
 }
